@@ -5,6 +5,7 @@
    Content-Length.  What it cannot exhibit - memory errors inside libstdc++/boost - is covered by
    the ASan+UBSan run of the same streams (supporting, see evidence). *)
 From Via Require Import M_Char M_Parse M_Receive P_Parse P_C05 P_Term P_TermC.
+From Via Require Import M_Imp M_Loop Gen_Parse P_Imp P_Loop.
 Local Open Scope N_scope.
 
 (* one call, from any state satisfying the invariant *)
@@ -61,3 +62,23 @@ Print Assumptions C05_receive_safe.
 Print Assumptions C05_no_undefined_slice.
 Print Assumptions C05_read_loop_terminates.
 Print Assumptions C05_client_read_loop_terminates.
+
+(* ---- the loops of the source itself ----
+   The four character loops (request line, status line, field line, chunk-size line) are translated from clang's AST
+   on every run (translate/parse.py -> Gen_Parse.v, a term of M_Loop.v).  Run with ANY fuel that exceeds the length
+   of the input they return a value: they do not run out of fuel - each turn of the while loop of the source consumes a
+   byte - and they never read at or past `end` (reading there is `None` in M_Loop.lexec).  This is a statement about
+   the translated source, not about the model. *)
+Theorem C05_source_loops_finish_within_the_input : forall L buf fuel, (length buf < fuel)%nat ->
+  (forall r, lrun (rl_lim L) (rl_src L) fuel rl_parse_src (rl_store r) buf <> None) /\
+  (forall r, lrun (sl_lim L) (sl_src L) fuel sl_parse_src (sl_store r) buf <> None) /\
+  (forall f, lrun (fl_lim L) (fl_src L) fuel fl_parse_src (fl_store f) buf <> None) /\
+  (forall k, lrun (ck_lim L) (ck_src L) fuel ck_parse_src (ck_store k) buf <> None).
+Proof.
+  intros L buf fuel Hf. repeat split; intros x.
+  - rewrite (rl_parse_is_the_source L x buf fuel Hf). discriminate.
+  - rewrite (sl_parse_is_the_source L x buf fuel Hf). discriminate.
+  - rewrite (fl_parse_is_the_source L x buf fuel Hf). discriminate.
+  - rewrite (ck_parse_is_the_source L x buf fuel Hf). discriminate.
+Qed.
+Print Assumptions C05_source_loops_finish_within_the_input.
